@@ -15,18 +15,18 @@ const MaxPaths = 20000
 
 // Loop is a natural loop of a function.
 type Loop struct {
-	Fn     *ssa.Function
-	Index  int
-	Header *ssa.BasicBlock
-	Body   map[*ssa.BasicBlock]bool // includes header
+	Fn      *ssa.Function
+	Index   int
+	Header  *ssa.BasicBlock
+	Body    map[*ssa.BasicBlock]bool // includes header
 	Latches []*ssa.BasicBlock
 
 	// counted-loop recognition (nil IV if not a recognised counted idiom)
-	IV      ssa.Value // the SSA value that denotes the current iteration's index inside the body
-	IVPhi   *ssa.Phi
-	Start   int64
-	Bound   ssa.Value // the loop runs while IV < Bound
-	CondIf  *ssa.If
+	IV     ssa.Value // the SSA value that denotes the current iteration's index inside the body
+	IVPhi  *ssa.Phi
+	Start  int64
+	Bound  ssa.Value // the loop runs while IV < Bound
+	CondIf *ssa.If
 }
 
 // FuncInfo caches the loop structure of a function.
@@ -205,10 +205,10 @@ func (fi *FuncInfo) recogniseCounted(l *Loop) {
 
 // Fact is an atomic branch fact on a path.
 type Fact struct {
-	Atom  *Term
-	Pol   bool
-	Block *ssa.BasicBlock // the block whose If decided it
-	Virtual bool // added from a boolean return value, not a branch
+	Atom    *Term
+	Pol     bool
+	Block   *ssa.BasicBlock // the block whose If decided it
+	Virtual bool            // added from a boolean return value, not a branch
 }
 
 func (f Fact) String() string {
@@ -248,10 +248,10 @@ type Path struct {
 	End    EndKind
 	Latch  *ssa.BasicBlock // target header for EndLatch
 	Ret    *ssa.Return
-	ctx    *Ctx                    // context of the root function
-	ctxs   map[*ssa.Function]*Ctx  // context of every function activated on the path (root and inlined helpers)
-	steps  []step                  // instruction ranges in execution order
-	byInst map[int]*Ctx            // context of every activation, by activation number
+	ctx    *Ctx                   // context of the root function
+	ctxs   map[*ssa.Function]*Ctx // context of every function activated on the path (root and inlined helpers)
+	steps  []step                 // instruction ranges in execution order
+	byInst map[int]*Ctx           // context of every activation, by activation number
 	seen   map[*ssa.BasicBlock]bool
 	busy   map[string]bool
 }
@@ -376,17 +376,17 @@ const MaxInlineDepth = 3
 
 // Ctx evaluates values to terms along one path.
 type Ctx struct {
-	fi    *FuncInfo
-	pred  map[*ssa.BasicBlock]*ssa.BasicBlock
-	pos   map[*ssa.BasicBlock]int
-	seq   []*ssa.BasicBlock
-	memo  map[ssa.Value]*Term
-	stack []*ssa.Phi // loop phis being expanded
+	fi       *FuncInfo
+	pred     map[*ssa.BasicBlock]*ssa.BasicBlock
+	pos      map[*ssa.BasicBlock]int
+	seq      []*ssa.BasicBlock
+	memo     map[ssa.Value]*Term
+	stack    []*ssa.Phi // loop phis being expanded
 	detached bool
-	bind  map[ssa.Value]*Term // parameters / free variables of an inlined helper, bound to the caller's terms
-	tag   string               // name prefix for loop-carried values and cells of an inlined helper
-	inst  int                  // activation number on the path (0: the root function)
-	tsub  map[*types.TypeParam]types.Type // type parameters of an inlined generic helper, bound to the caller's type arguments
+	bind     map[ssa.Value]*Term             // parameters / free variables of an inlined helper, bound to the caller's terms
+	tag      string                          // name prefix for loop-carried values and cells of an inlined helper
+	inst     int                             // activation number on the path (0: the root function)
+	tsub     map[*types.TypeParam]types.Type // type parameters of an inlined generic helper, bound to the caller's type arguments
 	// for a spliced closure: the activation that created and called it, and the call position there, so that
 	// reads of captured variables see the value the variable holds at the call
 	outer   *Ctx
@@ -1830,7 +1830,6 @@ func CellOf(t *Term) ssa.Value {
 	return nil
 }
 
-
 // accumulatorCell tells whether every store to cell a, in fn and in the closures capturing it,
 // has the form a = errors.Join(*a, ...).
 func accumulatorCell(fn *ssa.Function, a *ssa.Alloc) bool {
@@ -1886,7 +1885,6 @@ func accumulatorCell(fn *ssa.Function, a *ssa.Alloc) bool {
 	return ok
 }
 
-
 // deferredOnlyFillNil tells whether every store to cell a made by the deferred closures of fn is
 // executed only when the cell currently holds nil (idiom: `if cerr := c.Close(); err == nil { err = cerr }`).
 func deferredOnlyFillNil(fn *ssa.Function, a *ssa.Alloc) bool {
@@ -1932,7 +1930,6 @@ func deferredOnlyFillNil(fn *ssa.Function, a *ssa.Alloc) bool {
 	}
 	return ok && any
 }
-
 
 // mayWriteThrough tells whether function g may write the cell its free variable / parameter v
 // points to: a store through it, or handing it on to anything but a load.
